@@ -275,7 +275,7 @@ class Label(Factory, Container, Collection):
             else:
                 raise JsonFormatException(json, "Label.data")
 
-            return Label.ed(entries, **pairs)
+            return Label.ed(entries, pairs)
 
         raise JsonFormatException(json, "Label")
 
@@ -502,7 +502,7 @@ class UntypedLabel(Factory, Container, Collection):
             else:
                 raise JsonFormatException(json, "UntypedLabel.data")
 
-            return UntypedLabel.ed(entries, **pairs).specialize()
+            return UntypedLabel.ed(entries, pairs).specialize()
 
         raise JsonFormatException(json, "UntypedLabel")
 
